@@ -50,7 +50,7 @@ def run(tier, seed, replay):
             c = R.gen_struct_case(rng, k, tr)
             enum_of[k] = False
         else:
-            tr = tr if tr not in ("Debug", "Pointer") else "Display"
+            tr = tr if tr != "Pointer" else "Display"
             c = R.gen_enum_case(rng, k, tr)
             enum_of[k] = True
             if c.meta["must_fail"] or c.meta["mode"] not in ("none", "default"):
